@@ -25,6 +25,8 @@ MARKETS = {
     'm4': {'AAA': ('falling', '41.37'), 'BBB': ('falling', '103.11'), 'CCC': ('gapdown', '17.93')},
     # business days without a row (exchange holiday / data gap) after the asset's data have begun
     'gap': {'AAA': ('zigzag', '41.37'), 'BBB': ('rising', '103.11'), 'CCC': ('falling', '17.93')},
+    # rows exist from the first day but their price cells are blank until the asset's first quote
+    'blankstart': {'AAA': ('falling', '41.37'), 'BBB': ('zigzag', '103.11'), 'CCC': ('rising', '17.93')},
 }
 
 
@@ -36,6 +38,9 @@ def base_market(name):
         rows[i] = (rows[i][0], None, rows[i][2])         # a missing open
         rows2 = m['CCC']
         rows2[i + 1] = (rows2[i + 1][0], rows2[i + 1][1], None)   # a missing close
+    if name == 'blankstart':
+        k = len(PRE) + 4
+        m['CCC'] = [(d, None, None) if i < k else (d, o, c) for i, (d, o, c) in enumerate(m['CCC'])]
     if name == 'gap':
         i = len(PRE)
         m['BBB'] = [r for k, r in enumerate(m['BBB']) if k not in (i + 2, i + 3, i + 6)]
@@ -135,16 +140,19 @@ def run_world(cfg, market, directory):
 
 def item_eval(item):
     name, how, cfgs, cuts = item['market'], item['rewrite'], item['cfgs'], item['cuts']
+    d0 = scratch_dir('qsc07w-')
     d = scratch_dir('qsc07-')
     viols, n, differing, errors = [], 0, 0, 0
     try:
         market = base_market(name)
-        handler = run_world(None, market, d)
+        handler = run_world(None, market, d0)      # the full world keeps its own directory
         base = [sl.run_session(cfg, handler) for cfg in cfgs]
         mk.clear_caches()
         for cut_s in cuts:
             cut = datetime.date.fromisoformat(cut_s)
             m2 = rewrite(market, cut, how)
+            shutil.rmtree(d, ignore_errors=True)
+            d = scratch_dir('qsc07-')                # a new directory for every rewritten world
             handler2 = run_world(None, m2, d)
             for cfg, w in zip(cfgs, base):
                 w2 = sl.run_session(cfg, handler2)
@@ -176,6 +184,7 @@ def item_eval(item):
     finally:
         mk.clear_caches()
         shutil.rmtree(d, ignore_errors=True)
+        shutil.rmtree(d0, ignore_errors=True)
     return {'viols': viols[:6], 'execs': n + len(cfgs), 'evals': n, 'nontrivial': differing > 0,
             'outcome': (name, how, item['chunk']),
             'counters': {'world_pairs': n, 'pairs_where_rewrite_changed_the_future': differing,
@@ -186,7 +195,7 @@ def item_eval(item):
 
 def items(tier):
     cfgs = configs(tier)
-    markets = ['m0', 'late', 'hole', 'gap'] if tier == 'quick' else list(MARKETS)
+    markets = ['m0', 'late', 'hole', 'gap', 'blankstart'] if tier == 'quick' else list(MARKETS)
     rewrites = ['remove', 'x3', 'reverse', 'blank'] if tier == 'quick' else REWRITES
     cuts = [c.isoformat() for c in CUTS]
     size = 10 if tier == 'quick' else 25
@@ -220,13 +229,14 @@ def run(tier, res, is_known):
 
 def replay(case):
     d = scratch_dir('qsc07r-')
+    d2 = scratch_dir('qsc07r2-')
     try:
         market = base_market(case['market'])
         h = run_world(None, market, d)
         w = sl.run_session(case['cfg'], h)
         mk.clear_caches()
         cut = datetime.date.fromisoformat(case['cut'])
-        h2 = run_world(None, rewrite(market, cut, case['rewrite']), d)
+        h2 = run_world(None, rewrite(market, cut, case['rewrite']), d2)
         w2 = sl.run_session(case['cfg'], h2)
         a, b = prefix(w, cut), prefix(w2, cut)
         if a != b:
@@ -236,3 +246,4 @@ def replay(case):
     finally:
         mk.clear_caches()
         shutil.rmtree(d, ignore_errors=True)
+        shutil.rmtree(d2, ignore_errors=True)
